@@ -29,6 +29,10 @@ fn main() {
                 ctx.only = Some(args[k + 1].parse().unwrap());
                 k += 2;
             }
+            "--from" => {
+                ctx.from = args[k + 1].parse().unwrap();
+                k += 2;
+            }
             "--profile" => {
                 ctx.profile = args[k + 1].clone();
                 k += 2;
@@ -45,8 +49,17 @@ fn main() {
         }
     }
     install_panic_hook();
+    limit_address_space();
     let t0 = std::time::Instant::now();
     match ctx.prop.as_str() {
+        "C01" => match ctx.family.as_str() {
+            "step" => mcw::steps::c01_step(&mut ctx),
+            f => panic!("unknown family {}", f),
+        },
+        "C04" => mcw::steps::c04(&mut ctx),
+        "C05" => mcw::steps::c05(&mut ctx),
+        "C09" => mcw::steps::c09(&mut ctx),
+        "C10" => mcw::steps::c10(&mut ctx),
         "C16" => mcw::c16::run(&mut ctx),
         "C17" => mcw::c17::run(&mut ctx),
         p => {
@@ -59,4 +72,24 @@ fn main() {
         let _ = f.flush();
     }
     emit_result(&ctx.result_json().to_string());
+}
+
+#[repr(C)]
+struct RLimit {
+    cur: u64,
+    max: u64,
+}
+extern "C" {
+    fn setrlimit(resource: i32, rlim: *const RLimit) -> i32;
+}
+/// Backstop: an operand-sized allocation must fail inside this process (abort),
+/// not exhaust the host. RLIMIT_AS = 9 on Linux.
+fn limit_address_space() {
+    let gib: u64 = std::env::var("MCW_AS_GIB").ok().and_then(|v| v.parse().ok()).unwrap_or(4);
+    let r = RLimit { cur: gib << 30, max: gib << 30 };
+    unsafe {
+        setrlimit(9, &r as *const RLimit);
+        let c = RLimit { cur: 0, max: 0 };
+        setrlimit(4, &c as *const RLimit); // RLIMIT_CORE
+    }
 }
